@@ -50,7 +50,15 @@ fn run_scalar(ctx: &Ctx) -> Report {
     par_run(jobs, ctx.threads, move |idx, rep| {
         let mut rng = Rng::derive(seed, 0xC03, *idx as u64);
         let len = rng.range(40, maxlen);
-        let m = *rng.pick(&[1e-3, 0.1, 1.0, 37.5, 1e3, 1e6]);
+        // positive prices in any unit: mostly ordinary, sometimes 1e-24..1e-12 or 1e9..1e12 per unit
+        let m = match idx % 9 {
+            7 => rng.log_uniform(1e-24, 1e-12),
+            8 => rng.log_uniform(1e6, 1e9),
+            _ => *rng.pick(&[1e-3, 0.1, 1.0, 37.5, 1e3, 1e6]),
+        };
+        if idx % 9 >= 7 {
+            rep.count("scalar.streams_in_tiny_or_huge_units");
+        }
         let mut g = BandGen::new(BAND_REGIMES[idx % BAND_REGIMES.len()], m, rng.u64());
         let xs = g.take(len);
         let inputs: Vec<In> = xs.iter().map(|x| In::S(*x)).collect();
@@ -88,6 +96,15 @@ fn run_bars(ctx: &Ctx) -> Report {
         } else {
             let base = *rng.pick(&[1e-2, 1.0, 50.0, 1e4]);
             BarGen::new(BAR_STYLES[idx % BAR_STYLES.len()], base, rng.u64()).take(len)
+        };
+        // a sixth of the bar streams are re-expressed in other units: prices and volumes both tiny (flows
+        // ~1e-16 and below), or both huge
+        let bars: Vec<Bar> = if idx % 6 == 5 {
+            let (pf, vf) = *rng.pick(&[(1e-8, 1e-8), (1e-9, 1e-7), (1e-12, 1e-6), (1e6, 1e6)]);
+            rep.count("bars.streams_in_tiny_or_huge_units");
+            bars.iter().map(|b| Bar { v: b.v * vf, ..b.scale_prices(pf) }).collect()
+        } else {
+            bars
         };
         let inputs: Vec<In> = bars.iter().map(|b| In::B(*b)).collect();
         let heads: Vec<f64> = bars.iter().take(16).flat_map(|b| b.fields()).collect();
@@ -203,8 +220,27 @@ fn run_soak(ctx: &Ctx) -> Report {
     })
 }
 
+fn run_huge_periods(ctx: &Ctx) -> Report {
+    let jobs = crate::common::huge_period_params();
+    let seed = ctx.seed;
+    par_run(jobs, ctx.threads, move |p, rep| {
+        if !BAR_KINDS.contains(&p.kind) {
+            return;
+        }
+        let mut rng = Rng::derive(seed, 0xC03E, p.p[0] as u64 ^ p.p[1] as u64);
+        let xs = BandGen::new(BAND_REGIMES[rng.below(BAND_REGIMES.len())], 1.0, rng.u64()).take(300);
+        let inputs: Vec<In> = xs.iter().map(|x| In::S(*x)).collect();
+        run_stream(rep, "C03", "c03", p, &inputs, usize::MAX, 1, &judge);
+        rep.count("huge_period_streams");
+        rep.distinct_by_construction += 1;
+    })
+}
+
 pub fn run(ctx: &Ctx) -> Report {
     let mut rep = Report::new();
+    if ctx.phase_enabled("huge") {
+        rep.merge(run_huge_periods(ctx));
+    }
     if ctx.phase_enabled("soak") {
         rep.merge(run_soak(ctx));
     }
